@@ -111,5 +111,51 @@ let oscun toks =
         (Some (bytes_of_tok tok, osc_piv_bytes (zi seq))) (bytes_of_tok dg)
   | _ -> failwith "oscun args"
 
+(* oscseq <secret> <salt> <idctx> <cid> <sid> <token> <type> <cseq> <sseq> <step>*
+   several requests and responses on ONE token between the same two endpoints (Observe
+   registration, re-registration / cancellation with the same token, responses with and without
+   Partial IV).  Steps: Q- | Q0 | Q1 (request without Observe / Observe 0 / Observe 1),
+   R<o><p> (response; o = 1 carries Observe, p = 1 forces a Partial IV).  The state is what
+   RFC 8613 prescribes: sender sequence numbers, and the request binding (Partial IV of the
+   latest request on the token) that responses are protected and verified with. *)
+let oscseq toks =
+  match toks with
+  | secret :: salt :: idctx :: cid :: sid :: tok :: ty :: cseq :: sseq :: steps ->
+      let cc = ctx_of secret salt idctx cid sid in
+      let sc = ctx_of secret salt idctx sid cid in
+      let token = bytes_of_tok tok in
+      let cs = ref (int_of_string cseq) and ss = ref (int_of_string sseq) in
+      let rpiv = ref [] and k = ref 0 in
+      let b = Buffer.create 256 in
+      let zb n = zbyte.(n land 255) in
+      List.iter (fun st ->
+        incr k;
+        if st.[0] = 'Q' then begin
+          let obs = match st.[1] with '0' -> [(z_of_int 6, [])] | '1' -> [(z_of_int 6, [zb 1])] | _ -> [] in
+          let m = { m_type = zi ty; m_code = z_of_int 1; m_mid = z_of_int (100 + !k); m_token = token;
+                    m_opts = obs @ [(z_of_int 11, [zb 115])]; m_payload = [] } in
+          (match osc_protect_req cc m (z_of_int !cs) with
+           | None -> Buffer.add_string b " q=NONE"
+           | Some o ->
+               let dg = serialize UDP o in
+               rpiv := osc_piv_bytes (z_of_int !cs);
+               cs := !cs + 1;
+               Buffer.add_string b (" q=" ^ fullhex dg ^ " dq=" ^ receive sc None dg))
+        end else begin
+          let obs = st.[1] = '1' and sp = st.[2] = '1' in
+          let m = { m_type = z_of_int 1; m_code = z_of_int 69; m_mid = z_of_int (200 + !k); m_token = token;
+                    m_opts = (if obs then [(z_of_int 6, [zb !k])] else []);
+                    m_payload = [zb 114; zb (48 + !k mod 10)] } in
+          (match osc_protect_resp sc m !rpiv sp (z_of_int !ss) with
+           | None -> Buffer.add_string b " r=NONE"
+           | Some o ->
+               let dg = serialize UDP o in
+               if obs || sp then ss := !ss + 1;
+               Buffer.add_string b (" r=" ^ fullhex dg ^ " dr=" ^ receive cc (Some (token, !rpiv)) dg))
+        end) steps;
+      Buffer.contents b
+  | _ -> failwith "oscseq args"
+
 let () =
+  register "oscseq" oscseq;
   register "oscderive" oscderive; register "oscx" oscx; register "oscun" oscun
